@@ -55,6 +55,9 @@ func Spec() *mon.Spec {
 
 func gen(g *mon.Gen) {
 	rng := g.Rng
+	for i := 0; i < g.Pick(6, 60); i++ {
+		g.Emit(&Case{Mask: 3, Seed: rng.Int63(), K: 2, Terminal: []string{"tcp-shutdown", "tcp-cancel"}[i%2]})
+	}
 	per := g.Pick(6, 200)
 	for mask := 0; mask < 16; mask++ {
 		for i := 0; i < per; i++ {
@@ -102,9 +105,95 @@ type scenario struct {
 	hdone    chan struct{}
 }
 
+// runTCP: ListenAndServe on the loopback interface: after Shutdown()==nil (or context cancel) the serve call has returned
+// ErrServerClosed and the port refuses connections. Skipped (not a verdict) when loopback is unavailable.
+func runTCP(c *Case, r *mon.Rec, rng *rand.Rand) {
+	dev := simdev.New(uint64(c.Seed), "srv")
+	s := &server.Server{OnErrorFunc: func(error) {}}
+	addrCh := make(chan net.Addr, 1)
+	s.OnServeFunc = func(a net.Addr) { addrCh <- a }
+	ctx, cancel := context.WithCancel(context.Background())
+	defer cancel()
+	served := make(chan error, 1)
+	go func() { served <- s.ListenAndServe(ctx, "127.0.0.1:0", srvx.DevHandler(dev, nil)) }()
+	var addr net.Addr
+	select {
+	case addr = <-addrCh:
+	case <-served:
+		r.Cover("tcp", "unavailable")
+		return
+	case <-time.After(3 * time.Second):
+		r.Cover("tcp", "unavailable")
+		return
+	}
+	var conns []net.Conn
+	for i := 0; i < 1+rng.Intn(3); i++ {
+		cli, err := net.DialTimeout("tcp", addr.String(), 2*time.Second)
+		if err != nil {
+			r.Cover("tcp", "unavailable")
+			return
+		}
+		conns = append(conns, cli)
+		q := specref.Req{FC: 3, Unit: 1, TID: uint16(i + 1), Addr: uint16(rng.Intn(1000)), Qty: 2}
+		cli.Write(q.Encode(specref.TCP))
+		want := simdev.New(uint64(c.Seed), "srv").Handle(q).Encode(specref.TCP)
+		if got, _ := srvx.ReadN(cli, len(want), 3*time.Second); !bytes.Equal(got, want) {
+			r.Violate(c, "tcp-reply-wrong", mon.Attrs{}, fmt.Sprintf("got % x want % x", got, want))
+		}
+	}
+	defer func() {
+		for _, cn := range conns {
+			cn.Close()
+		}
+	}()
+	r.Eval(1)
+	a := mon.Attrs{"terminal": c.Terminal}
+	if c.Terminal == "tcp-cancel" {
+		cancel()
+	} else {
+		sctx, sc := context.WithTimeout(context.Background(), 3*time.Second)
+		err := s.Shutdown(sctx)
+		sc()
+		if err != nil {
+			r.Cover("tcp", "shutdown-error")
+			return
+		}
+	}
+	select {
+	case err := <-served:
+		if !errors.Is(err, server.ErrServerClosed) {
+			r.Violate(c, "serve-wrong-error-after-shutdown", a, fmt.Sprintf("ListenAndServe returned %v", err))
+		}
+	case <-time.After(3 * time.Second):
+		// state witness: does the port still accept?
+		kc, kerr := net.DialTimeout("tcp", addr.String(), time.Second)
+		if kc != nil {
+			kc.Close()
+		}
+		r.Violate(c, "serve-does-not-return", a, fmt.Sprintf("ListenAndServe had not returned 3 s after %s; a new dial to %s gave err=%v", c.Terminal, addr, kerr))
+		return
+	}
+	if kc, err := net.DialTimeout("tcp", addr.String(), time.Second); err == nil {
+		kc.Close()
+		r.Violate(c, "accepts-after-shutdown", a, fmt.Sprintf("port %s still accepts connections after %s and the return of ListenAndServe", addr, c.Terminal))
+	}
+	for i, cn := range conns { // idle connections are closed by the server
+		_ = cn.SetReadDeadline(time.Now().Add(2 * time.Second))
+		if _, err := cn.Read(make([]byte, 1)); err == nil || errors.Is(err, osErrDeadline) {
+			r.Violate(c, "connection-never-closed", a, fmt.Sprintf("idle TCP connection %d still open 2 s after %s (read err %v)", i, c.Terminal, err))
+		}
+	}
+	r.Distinct(mon.Mix(0x7c9, mon.HashS(c.Terminal), uint64(c.Seed)))
+	r.Cover("tcp", c.Terminal)
+}
+
 func run(ci any, r *mon.Rec) {
 	c := ci.(*Case)
 	rng := rand.New(rand.NewSource(c.Seed))
+	if c.Terminal == "tcp-shutdown" || c.Terminal == "tcp-cancel" {
+		runTCP(c, r, rng)
+		return
+	}
 	sc := &scenario{c: c, r: r, l: srvx.NewMemListener(), hstart: map[uint16]int64{}, hend: map[uint16]int64{}, rejected: map[string]bool{}, inflight: make(chan struct{}, 64), hdone: make(chan struct{}, 64)}
 	sc.clk = sc.l.Clk
 	a := mon.Attrs{"mask": c.Mask, "terminal": c.Terminal}
